@@ -7,6 +7,7 @@ package queue
 import (
 	"context"
 	"fmt"
+	"math"
 	"os"
 	"path/filepath"
 	"strings"
@@ -365,12 +366,18 @@ func c12RunTiming(sc qScenario) (vs []ev.V) {
 		if e.Op != "start" {
 			continue
 		}
-		if prev, ok := last[e.Msg]; ok && e.At-prev < 15*time.Minute-time.Second {
+		// the retry after attempt n is scheduled initial * trunc(1.25^(n-1)) later (every recipient still pending has
+		// taken part in all n attempts); a restart may delay it, never advance it
+		minGap := 15 * time.Minute
+		if e.Attempt >= 2 {
+			minGap = 15 * time.Minute * time.Duration(math.Pow(1.25, float64(e.Attempt-2)))
+		}
+		if prev, ok := last[e.Msg]; ok && e.At-prev < minGap-time.Second {
 			shape := "same-run"
 			if len(sc.RestartAfter) > 0 {
 				shape = "restart-in-history"
 			}
-			vs = append(vs, ev.Vf("queue:retry-before-its-time:"+shape, "message %s: attempt %d started at +%v, only %v after the previous one (retry delay is 15 min at least); restarts after attempts %v; %s", e.Msg, e.Attempt, e.At, e.At-prev, sc.RestartAfter, c01Events(h)))
+			vs = append(vs, ev.Vf("queue:retry-before-its-time:"+shape, "message %s: attempt %d started at +%v, only %v after the previous one (the retry was scheduled "+fmt.Sprint(minGap)+" after it); restarts after attempts %v; %s", e.Msg, e.Attempt, e.At, e.At-prev, sc.RestartAfter, c01Events(h)))
 			break
 		}
 		last[e.Msg] = e.At
@@ -378,10 +385,37 @@ func c12RunTiming(sc qScenario) (vs []ev.V) {
 	return vs
 }
 
+// c12GenLongRetries: histories long enough for the retry delay to grow: one recipient is deferred a few times and
+// then delivered, another one is deferred in every attempt; a restart somewhere behind the delivery of the first.
+func c12GenLongRetries(t *rapid.T) qScenario {
+	sc := qScenario{MaxTries: rapid.IntRange(5, 9).Draw(t, "max_tries"), Partial: rapid.Bool().Draw(t, "partial"), Bounce: "ok"}
+	tmp := &verifx.ErrNode{Kind: "smtp", Code: 451, Ench: [3]int{4, 0, 0}, Msg: "later"}
+	m := qMsg{ID: "m0", From: "sender@example.com", OriginalFrom: "sender@example.com", Header: "From: <sender@example.com>\r\nSubject: retries\r\n", Body: "x\r\n",
+		Rcpts: []string{"a@example.org", "b@example.org"}}
+	okAfter := rapid.IntRange(1, 3).Draw(t, "first_delivered_after")
+	for a := 1; a <= sc.MaxTries; a++ {
+		p := qPlan{Rcpt: map[string]*verifx.ErrNode{"b@example.org": tmp}}
+		if a <= okAfter {
+			p.Rcpt["a@example.org"] = tmp
+		}
+		m.Plans = append(m.Plans, p)
+	}
+	sc.Msgs = []qMsg{m}
+	if rapid.IntRange(0, 3).Draw(t, "restart") != 0 {
+		sc.RestartAfter = []int{rapid.IntRange(okAfter+1, sc.MaxTries-1).Draw(t, "restart_after")}
+	}
+	return sc
+}
+
 func TestVerifC12Queue(t *testing.T) {
 	qT = t
 	r := c12Rec
-	ev.Run(t, r, ev.Spec[qScenario]{Name: "retry-timing", N: r.Scale(4, 1, 100), Gen: c01Gen, Run: c12RunTiming, Info: func(sc qScenario) ev.Info {
+	ev.Run(t, r, ev.Spec[qScenario]{Name: "retry-timing", N: r.Scale(4, 1, 100), Gen: func(t *rapid.T) qScenario {
+		if rapid.Bool().Draw(t, "long_history") {
+			return c12GenLongRetries(t)
+		}
+		return c01Gen(t)
+	}, Run: c12RunTiming, Info: func(sc qScenario) ev.Info {
 		return ev.Info{Nontrivial: len(sc.RestartAfter) > 0 && sc.MaxTries > 2, Classes: []string{fmt.Sprintf("restart=%v", len(sc.RestartAfter) > 0)}}
 	}})
 	ev.Run(t, r, ev.Spec[c12Q]{Name: "queue-scenarios", N: r.Scale(1, 4, 2), Gen: c12GenQ, Run: c12RunQ, Journal: true,
